@@ -253,6 +253,9 @@ Fixpoint tx_find {A} (l : list (Z * A)) (h : Z) : option A :=
 Fixpoint tx_remove {A} (l : list (Z * A)) (h : Z) : list (Z * A) :=
   match l with [] => [] | (h', a) :: l' => if h =? h' then tx_remove l' h else (h', a) :: tx_remove l' h end.
 Definition tx_set {A} (l : list (Z * A)) (h : Z) (a : A) : list (Z * A) := (h, a) :: tx_remove l h.
+(* replace the state of an open handle in place *)
+Fixpoint tx_update {A} (l : list (Z * A)) (h : Z) (a : A) : list (Z * A) :=
+  match l with [] => [] | (h', a') :: l' => if h =? h' then (h', a) :: l' else (h', a') :: tx_update l' h a end.
 
 Definition impl_state := (dbs * list (Z * txn))%type.
 
@@ -262,12 +265,12 @@ Definition impl_step (s : impl_state) (o : fop) : impl_state * fout :=
   | FBegin h w => ((d, tx_set txs h (begin d w)), ONone)
   | FPut h k v =>
     match tx_find txs h with
-    | Some t => if t_w t then ((d, tx_set txs h (put_key t k v)), ONone) else (s, ONone)
+    | Some t => if t_w t then ((d, tx_update txs h (put_key t k v)), ONone) else (s, ONone)
     | None => (s, ONone)
     end
   | FDel h k =>
     match tx_find txs h with
-    | Some t => if t_w t then ((d, tx_set txs h (delete_key t k)), ONone) else (s, ONone)
+    | Some t => if t_w t then ((d, tx_update txs h (delete_key t k)), ONone) else (s, ONone)
     | None => (s, ONone)
     end
   | FGet h k =>
@@ -293,12 +296,12 @@ Definition spec_step (s : spec_state) (o : fop) : spec_state * fout :=
   | FBegin h w => ((m, tx_set txs h (w, m)), ONone)
   | FPut h k v =>
     match tx_find txs h with
-    | Some (true, tm) => ((m, tx_set txs h (true, OMap.put tm k v)), ONone)
+    | Some (true, tm) => ((m, tx_update txs h (true, OMap.put tm k v)), ONone)
     | _ => (s, ONone)
     end
   | FDel h k =>
     match tx_find txs h with
-    | Some (true, tm) => ((m, tx_set txs h (true, OMap.del tm k)), ONone)
+    | Some (true, tm) => ((m, tx_update txs h (true, OMap.del tm k)), ONone)
     | _ => (s, ONone)
     end
   | FGet h k =>
